@@ -391,13 +391,12 @@ package keeper
 //@   nopanic
 //@ end
 
-// iteration over the asset supplies (helper with callback; inlined into InitGenesis): reads only
+// iteration over the asset supplies (helper with callback; inlined into InitGenesis and ExportGenesis): reads only;
+// the list built by GetAllAssetSupplies holds the stored supplies in walk order
 //@ func Keeper.IterateAssetSupplies(ctx, cb)
 //@   inline
 //@   invariant #1 pos:   0 <= it_idx && it_idx <= it_n && len(l_supplies) == it_idx
 //@   invariant #1 listed: forall j:Int :: 0 <= j && j < it_idx ==> l_supplies[j] == get(supplies, it_seq[j])
-//@   invariant #1 frame: forall j:Int :: 0 <= j && j < len(data.Htlcs) ==> has(htlcs, unhex(data.Htlcs[j].Id)) && get(htlcs, unhex(data.Htlcs[j].Id)) == data.Htlcs[j]
-//@                          && has(queue, data.Htlcs[j].ExpirationHeight, unhex(data.Htlcs[j].Id))
 //@ end
 
 // ---------------------------------------------------------------------------------------------
